@@ -656,6 +656,21 @@ _default_metadata_merger: metadata_merger.MetadataMerger = metadata_merger.Metad
 merge_metadata: bool = True
 
 
+def _collect_value_names(model: ir.Model) -> set[str]:
+    """Names of all values (inputs, initializers, node outputs) in all graphs, subgraphs and functions."""
+    names: set[str] = set()
+
+    def enter_graph(graph_like) -> None:
+        names.update(v.name for v in graph_like.inputs if v.name)
+        if isinstance(graph_like, ir.Graph):
+            names.update(graph_like.initializers)
+
+    for graph_like in (model.graph, *model.functions.values()):
+        for node in ir.traversal.RecursiveGraphIterator(graph_like, enter_graph=enter_graph):
+            names.update(v.name for v in node.outputs if v.name)
+    return names
+
+
 class RewriteRuleSet:
     def __init__(self, rules: Sequence[RewriteRule], *, commute: bool = False) -> None:
         if not rules:
@@ -666,6 +681,17 @@ class RewriteRuleSet:
         # We call remove_unused_nodes at end of rewriting if there is any rule that does
         # NOT remove nodes (immediately when it is applied)
         self.remove_unused_nodes = any(not rule.remove_nodes for rule in rules)
+        # Names of all values of the model being rewritten (set by apply_to_model): values
+        # added by a rewrite get names that are unique across all graphs and subgraphs.
+        self._value_names: set[str] = set()
+
+    def _fresh_value_name(self, base: str) -> str:
+        suffix = 1
+        while f"{base}_{suffix}" in self._value_names:
+            suffix += 1
+        name = f"{base}_{suffix}"
+        self._value_names.add(name)
+        return name
 
     def __repr__(self) -> str:
         return f"{self.__class__.__name__}({self.rules})"
@@ -727,15 +753,18 @@ class RewriteRuleSet:
                         continue
                     initializers = graph_or_function.initializers
                     for initializer in delta.new_initializers:
-                        if initializer.name in initializers:
+                        if (
+                            initializer.name in initializers
+                            or initializer.name in self._value_names
+                        ):
                             if verbose:
                                 print(f"Initializer {initializer.name} already exists.")
                             # Do not overwrite the registered value (its users would be left
-                            # with a dangling input): register the new one under a fresh name.
-                            suffix = 1
-                            while f"{initializer.name}_{suffix}" in initializers:
-                                suffix += 1
-                            initializer.name = f"{initializer.name}_{suffix}"
+                            # with a dangling input) and do not shadow a value of an enclosing
+                            # graph: register the new one under a fresh name.
+                            initializer.name = self._fresh_value_name(initializer.name)
+                        else:
+                            self._value_names.add(initializer.name)
                         initializers[initializer.name] = initializer  # type: ignore[index]
                 # TODO: This does not yet handle the problem of determining the correct insertion point
                 # for inserted nodes in the case of patterns with multiple output-nodes. The following
@@ -817,6 +846,14 @@ class RewriteRuleSet:
                     for n in delta.new_nodes:
                         n.metadata_props[RULE_NAME_TAG] = rule.name
 
+                # Name the unnamed new values here, uniquely across all graphs and subgraphs
+                # (the graph would name them per scope on insertion, and such a name may
+                # repeat the name of a value in a nested or enclosing graph).
+                for n in delta.new_nodes:
+                    for v in n.outputs:
+                        if not v.name:
+                            v.name = self._fresh_value_name("val")
+
                 convenience.replace_nodes_and_values(
                     graph_or_function,
                     node,
@@ -878,6 +915,7 @@ class RewriteRuleSet:
             The number of applications of rewrite rules.
         """
         assert isinstance(model, ir.Model)
+        self._value_names = _collect_value_names(model)
         onnxscript.optimizer.basic_constant_propagation(model.graph)
         # Rewriting may introduce new functions. In the following loop,
         # we restrict rewriting to original functions, not newly introduced ones.
